@@ -44,25 +44,27 @@ def edit_tree(rng, tree):
     return t, edits
 
 
-def one_case(rng, res):
-    tree = T.gen_tree(rng, max_depth=3)
-    if rng.random() < 0.4:
-        T.add_symlinks(rng, tree, 2)
-    patterns = rng.choice([[], [], ["*.pyc"], ["sub"], ["*.txt"]])
-    dirs = [p + "/" for p, n in T.all_paths(tree) if n[0] == "d"]
-    lstrip = [rng.choice(dirs)] if dirs and rng.random() < 0.3 else None
-    paths = rng.choice([None, ["."], None])
-    local_tree, edits = edit_tree(rng, tree)
-    import in_toto.settings as st
-    eff = patterns or list(st.ARTIFACT_EXCLUDE_PATTERNS)
-    ref_p = T.reference_record(tree, paths or ["."], eff, True, False, lstrip or [])
-    ref_l = T.reference_record(local_tree, paths or ["."], eff, True, False, lstrip or [])
-    if ref_p[0] != "ok" or ref_l[0] != "ok":
-        res.count("prefix_collision_skipped")
-        return
-    products = {k: {"sha256": v} for k, v in ref_p[1].items()}
-    local = {k: {"sha256": v} for k, v in ref_l[1].items()}
-    desc = {"edits": edits, "patterns": patterns, "lstrip": lstrip, "paths": paths, "n_products": len(products)}
+def gen_paths(rng, tree, local_tree):
+    """None (default: cwd), ["."], or a list of top-level entries of either tree (so look-alike siblings such as
+    "b" / "bar.txt" / "lib" / "lib.py" are passed side by side), sometimes with a nested path in addition."""
+    r = rng.random()
+    if r < 0.35:
+        return None
+    if r < 0.45:
+        return ["."]
+    names = sorted(set(tree) | set(local_tree))
+    if not names:
+        return ["."]
+    chosen = rng.sample(names, rng.randrange(1, len(names) + 1))
+    if rng.random() < 0.25:
+        nested = [p for p, n in T.all_paths(tree) if "/" in p and p.split("/")[0] in chosen and n[0] != "l"]
+        if nested:
+            chosen.append(rng.choice(nested))
+    rng.shuffle(chosen)
+    return chosen
+
+
+def run_impl(local_tree, products, paths, patterns, lstrip):
     d = tempfile.mkdtemp(prefix="verif-c19-")
     cwd = os.getcwd()
     try:
@@ -94,6 +96,31 @@ def one_case(rng, res):
     finally:
         os.chdir(cwd)
         shutil.rmtree(d, ignore_errors=True)
+    return i, statuses
+
+
+def one_case(rng, res):
+    tree = T.gen_tree(rng, max_depth=3)
+    if rng.random() < 0.4:
+        T.add_order_siblings(rng, tree, rng.randrange(1, 3))
+    if rng.random() < 0.4:
+        T.add_symlinks(rng, tree, 2)
+    patterns = rng.choice([[], [], ["*.pyc"], ["sub"], ["*.txt"]])
+    dirs = [p + "/" for p, n in T.all_paths(tree) if n[0] == "d"]
+    lstrip = [rng.choice(dirs)] if dirs and rng.random() < 0.3 else None
+    local_tree, edits = edit_tree(rng, tree)
+    paths = gen_paths(rng, tree, local_tree)
+    import in_toto.settings as st
+    eff = patterns or list(st.ARTIFACT_EXCLUDE_PATTERNS)
+    ref_p = T.reference_record(tree, paths or ["."], eff, True, False, lstrip or [])
+    ref_l = T.reference_record(local_tree, paths or ["."], eff, True, False, lstrip or [])
+    if ref_p[0] != "ok" or ref_l[0] != "ok":
+        res.count("prefix_collision_skipped")
+        return
+    products = {k: {"sha256": v} for k, v in ref_p[1].items()}
+    local = {k: {"sha256": v} for k, v in ref_l[1].items()}
+    desc = {"edits": edits, "patterns": patterns, "lstrip": lstrip, "paths": paths, "n_products": len(products)}
+    i, statuses = run_impl(local_tree, products, paths, patterns, lstrip)
     m = core.driver().call({"op": "match_products",
                             "products": [[k, [["sha256", v["sha256"]]]] for k, v in products.items()],
                             "local": [[k, [["sha256", v["sha256"]]]] for k, v in local.items()]})
@@ -107,16 +134,17 @@ def one_case(rng, res):
     res.count("identical" if identical else "different")
     for e in edits:
         res.count("edit_" + e)
+    full = {"op": "match_products", "desc": desc, "products": products, "local": local, "local_tree": T.to_jsonable(local_tree)}
     if not agreed:
-        res.fail("disagree", {"op": "match_products", "desc": desc, "products": products, "local": local},
+        res.fail("disagree", full,
                  {"op": "match_products", "impl": i, "model": m})
     if i != {"ok": exp}:
-        res.fail("oracle", {"op": "match_products", "desc": desc, "products": products, "local": local},
+        res.fail("oracle", full,
                  {"why": "the three reports are not exactly (only in link, only on disk, in both but different)",
                   "impl": i, "expected": exp})
     for fmt, stt in statuses.items():
         if (stt == 0) != identical:
-            res.fail("oracle", {"op": "match_products", "desc": dict(desc, fmt=fmt), "products": products, "local": local},
+            res.fail("oracle", dict(full, desc=dict(desc, fmt=fmt)),
                      {"why": "in-toto-match-products exit status %r although the local tree %s the recorded products" % (
                          stt, "equals" if identical else "differs from"), "impl": i})
 
@@ -139,7 +167,12 @@ def replay(case):
                             "products": [[k, [["sha256", v["sha256"]]]] for k, v in case["products"].items()],
                             "local": [[k, [["sha256", v["sha256"]]]] for k, v in case["local"].items()]})
     P, L = set(case["products"]), set(case["local"])
-    return {"desc": case["desc"], "model": m,
+    extra = {}
+    if "local_tree" in case:
+        dsc = case["desc"]
+        i, statuses = run_impl(T.from_jsonable(case["local_tree"]), case["products"], dsc["paths"], dsc["patterns"], dsc["lstrip"])
+        extra = {"impl": i, "cli_status": statuses}
+    return {"desc": case["desc"], "model": m, **extra,
             "expected": [sorted(P - L), sorted(L - P), sorted(k for k in P & L if case["products"][k] != case["local"][k])]}
 
 
